@@ -200,7 +200,10 @@ func genCRSTree(r *rand.Rand, nRa int) *crsTree {
 		"docs/crs-setup-example":                            "# OWASP CRS ver.3.0.0\n",
 		"docs/conf.txt":                                     "# OWASP CRS ver.3.0.0\n",
 		"docs/942999.yaml":                                  "  - test_id: 7\n  - test_id: 7\n",
-		"util/example.conf.disabled":                        "# OWASP CRS ver.3.0.0\n",
+		// directories whose names merely begin like the directories the commands work in
+		"regex-assembly-legacy/942100.ra":                           "  legacy  \n",
+		"tests/regression/tests-disabled/REQUEST-942-X/942100.yaml": "  - test_id: 7\n  - test_id: 7\n",
+		"util/example.conf.disabled":                                "# OWASP CRS ver.3.0.0\n",
 		// hidden entries among the assembly files (a desktop's metadata, a placeholder, an editor's swap file)
 		"regex-assembly/.DS_Store":       "\x00\x00\x00\x01Bud1\n",
 		"regex-assembly/.gitkeep":        "",
